@@ -554,6 +554,8 @@ def run(run, model):
     run.try_rule(r06_10, model)
     run.try_rule(r06_11, model)
     run.try_rule(r06_13, model)
+    from rules import c05 as _c05
+    run.try_rule(_c05.r05_15, model)
     from rules import c08
     run.rule("R06.12", "the i-th sub-pattern of a constructor meets the i-th field: positional indices come from enumerate() over the whole "
                        "collection, reversal after enumeration (shared with C08 R08.2, which also audits compile_match.rs)")
